@@ -227,6 +227,26 @@ pub fn resp_case(rec: &mut Rec, rng: &mut Rng, spec: &RespSpec, with_sink: bool)
         }
     }
     rec.op(&op, &hx(&bytes));
+    // one response OBJECT written, edited by further builder calls, and written again (an application may build a
+    // response once and reuse it): every write shows the builder calls made so far — nothing is remembered from an
+    // earlier write
+    {
+        let k = rng.below(spec.ops.len() + 1);
+        let v = if spec.v11 { micro_http::Version::Http11 } else { micro_http::Version::Http10 };
+        let mut r = micro_http::Response::new(v, crate::conn::status_of(spec.code));
+        RespSpec::apply_ops(&mut r, &spec.ops[..k]);
+        let mut first = Vec::new();
+        let _ = r.write_all(&mut first);
+        let mut again = Vec::new();
+        let _ = r.write_all(&mut again);
+        RespSpec::apply_ops(&mut r, &spec.ops[k..]);
+        let mut second = Vec::new();
+        let _ = r.write_all(&mut second);
+        let prefix_spec = RespSpec { v11: spec.v11, code: spec.code, ops: spec.ops[..k].to_vec() };
+        if first != again || first != serialize(&prefix_spec) || second != bytes {
+            rec.oracle_fail("C05", &format!("a response written after {} of its {} builder calls and again after all of them: the later write does not show the calls made so far", k, spec.ops.len()), &[op.clone(), format!("resp {}", prefix_spec.proto())]);
+        }
+    }
     // the public getters
     {
         let r = spec.build();
